@@ -10,6 +10,7 @@ CHECKS={
 "C03":("exploration","Numbered streams from several senders with mixed priorities/addressing modes plus exit signals, inspects, downs and log messages against a receiver parked inside its handlers; FIFO per (sender, class) and the priority-class rule are checked on the step-stamped history."),
 "C04":("exploration","Link/unlink/monitor/demonitor sequences by several requesters on pid, name, alias and event of targets that concurrently unregister or terminate; reference relation model from returned results and step-stamped intervals; exactly-one notification with an allowed reason, none without a relation, request after disappearance must fail, overlapping request may fail or be notified."),
 "C05":("fault_enumeration","Termination causes (handler error/normal/panic, Kill, exit from parent / non-parent, meta Start return, node stop graceful/forced) placed at drawn points of concurrent drivers for four target kinds; the scheduler explores the target state at which each cause lands; oracle: terminate once, last callback, reason in the set the issued causes allow."),
+"C06":("exploration","Concurrent SpawnRegister/RegisterName/UnregisterName/resolve/terminate histories checked with porcupine against a sequential registry model (step-stamped intervals), identifier bursts checked for repeats, and a release audit at quiescence (listings, names, aliases, events, target manager as target and as requester)."),
 "C07":("exploration","Interleaved calls with simulated-clock timeouts, late/duplicate/foreign/flooded replies, callee deaths and reference-counter cycling; oracle on (request id, reply serial) pairs: own reply or error, request seen at most once, reply consumed at most once."),
 }
 NA={}
